@@ -359,6 +359,11 @@ where
         self.write_string_list(&executable_content_send.name_list);
         self.writer
             .write_str(&executable_content_send.name_location);
+        if !executable_content_send.name_location.is_empty() {
+            // Needed to generate the id that is stored at 'idlocation'.
+            self.writer
+                .write_str(&executable_content_send.parent_state_name);
+        }
         self.write_parameters(&executable_content_send.params);
 
         self.writer.write_data(&executable_content_send.event);
